@@ -352,6 +352,7 @@ def matchOp (c : Ctx) (s : OpSpec) (ops : List Operand) : Option (List Operand) 
     | none => none
   | .memBaseOnly bF, .mem m :: rest => if memBaseOk c m bF then some rest else none
   | .unchecked _, _ :: rest => some rest
+  | .unchecked what, [] => if what.startsWith "{" then some [] else none     -- `{lsl #n}`: optional operand left out
   | _, _ => none
 
 def matchOps (c : Ctx) : List OpSpec → List Operand → Bool
@@ -411,6 +412,56 @@ def unscaledAlias (name : String) : Option String :=
   | "strh" => some "sturh" | "prfm" => some "prfum"
   | _ => none
 
+/-! ### `movi` / `mvni` (vector, immediate): judged by the vector the word loads (Arm ARM AdvSIMDExpandImm) against the vector
+the operands denote (`#imm {, LSL|MSL #n}` replicated over the arrangement's elements; no shift exists for 64-bit elements). -/
+
+def replicate64 (es : Nat) (v : Nat) : Nat :=
+  let e := v % 2 ^ es
+  (List.range (64 / es)).foldl (fun acc i => acc ||| (e <<< (es * i))) 0
+
+/-- AdvSIMDExpandImm for the MOVI/MVNI encodings (`none`: the ORR/BIC/FMOV uses of the same template) -/
+def moviExpand (op cmode imm8 : Nat) : Option Nat :=
+  let k := cmode / 2
+  if k ≤ 3 then (if cmode % 2 == 1 then none else some (replicate64 32 (imm8 <<< (8 * k))))
+  else if k ≤ 5 then (if cmode % 2 == 1 then none else some (replicate64 16 (imm8 <<< (8 * (k - 4)))))
+  else if k == 6 then some (replicate64 32 (if cmode % 2 == 0 then (imm8 <<< 8) ||| 0xFF else (imm8 <<< 16) ||| 0xFFFF))
+  else if cmode % 2 == 1 then none
+  else if op == 0 then some (replicate64 8 imm8)
+  else some ((List.range 8).foldl (fun acc i => if (imm8 >>> i) % 2 == 1 then acc ||| (0xFF <<< (8 * i)) else acc) 0)
+
+/-- `true` for every mnemonic but movi / mvni (and for operand shapes this check does not interpret) -/
+def moviOk (name : String) (ops : List Operand) (w : Nat) : Bool :=
+  if name != "movi" && name != "mvni" then true else
+  match ops.filter (· != .none) with
+  | .reg r :: .imm v _ :: rest =>
+    let sh : Option (Nat × Nat) := match rest with
+      | [] => some (0, sopLSL)
+      | [.imm s p] => some (s.toNat, p)
+      | _ => none
+    let es : Option Nat := if r.et == 1 then some 8 else if r.et == 2 then some 16 else if r.et == 3 then some 32 else if r.et == 4 then some 64
+                           else if r.et == 0 && r.rt == rtVec64 then some 64 else none
+    match sh, es with
+    | some (s, p), some es =>
+      let q := (w >>> 30) % 2
+      let op := (w >>> 29) % 2
+      let cmode := (w >>> 12) % 16
+      let imm8 := (((w >>> 16) % 8) <<< 5) ||| ((w >>> 5) % 32)
+      let val : Option Nat :=
+        if s > 63 then none       -- (also keeps the shifts below small)
+        else if es == 64 then (if s == 0 && p == sopLSL then some v.toNat else none)
+        else if p == sopLSL then (if s % 8 == 0 && s < es && v.toNat <<< s < 2 ^ es then some (v.toNat <<< s) else none)
+        else if p == sopMSL && es == 32 then (if (s == 8 || s == 16) && (v.toNat <<< s) ||| (2 ^ s - 1) < 2 ^ 32 then some ((v.toNat <<< s) ||| (2 ^ s - 1)) else none)
+        else none
+      match val, moviExpand op cmode imm8 with
+      | some val, some e =>
+        let isMvni := op == 1 && cmode != 14
+        let enc := if isMvni then 2 ^ 64 - 1 - e else e
+        let den := if name == "mvni" then 2 ^ 64 - 1 - replicate64 es val else replicate64 es val
+        enc == den && (q == 1) == (r.rt == rtVec128) && !r.hasIdx
+      | _, _ => false
+    | _, _ => true
+  | _ => true
+
 /-! ### the monitor -/
 
 inductive Verdict where
@@ -432,7 +483,8 @@ def judge (forms : List Form) (name : String) (ops : List Operand) (pc : BitVec 
     match words with
     | [w] =>
       if forms.any (fun f => !f.isPartial && describes f ops pc w) then .full
-      else if forms.any (fun f => f.isPartial && describes f ops pc w) then .partialOk
+      else if forms.any (fun f => f.isPartial && describes f ops pc w) then
+        (if moviOk name ops w.toNat then .partialOk else .bad "movi-immediate-or-shift-not-denoted")
       else if forms.any (fun f => f.matchesTemplate w.toNat) then .bad "operands-not-denoted-by-fields"
       else .bad "no-template-of-this-mnemonic-matches"
     | _ => .bad "unexpected-word-count"
